@@ -1,0 +1,73 @@
+//go:build verif
+
+// Contracts for the deductive verifier in /verif (govc): structured "//@" comments, one block per
+// function (keyed by function name, loop ordinal in source order). Comment-only: this file adds no
+// declarations and is excluded from normal builds by the build tag. Grammar: /verif/engine/spec.go.
+package main
+
+// ---------------------------------------------------------------------------------------------
+// encryption.go
+// ---------------------------------------------------------------------------------------------
+
+//@ func keysetHandleFromRawKey
+//@   props C09 C10 C11
+//@   allocs Arr:Val
+//@   ensures len-check: implies(len(rawKey) != 64, result1 != nil)
+//@   ensures nil-on-error: implies(result1 != nil, result0 == nil)
+//@   ensures handle-on-success: implies(result1 == nil, result0 != nil)
+//@   trusted_ensures: implies(result1 == nil, khKey(result0) == mkbytes(elems(rawKey), off(rawKey), len(rawKey)))
+
+//@ func Encrypt
+//@   props C09 C10
+//@   allocs Arr:Int
+//@   ensures keycheck: implies(len(key) != 64, result1 != nil)
+//@   ensures nil-on-error: implies(result1 != nil, result0 == nil)
+//@   ensures value {C09}: implies(result1 == nil, mkbytes(elems(result0), off(result0), len(result0)) == daeadEnc(mkbytes(elems(key), off(key), len(key)), mkbytes(elems(data), off(data), len(data)), noBytes))
+
+//@ func Decrypt
+//@   props C09
+//@   allocs Arr:Int
+//@   ensures keycheck: implies(len(key) != 64, result1 != nil)
+//@   ensures nil-on-error: implies(result1 != nil, result0 == nil)
+//@   ensures fails-when-tink-fails {C09}: implies(!daeadDecOK(mkbytes(elems(key), off(key), len(key)), mkbytes(elems(data), off(data), len(data)), noBytes), result1 != nil)
+//@   ensures value {C09}: implies(result1 == nil, mkbytes(elems(result0), off(result0), len(result0)) == daeadDec(mkbytes(elems(key), off(key), len(key)), mkbytes(elems(data), off(data), len(data)), noBytes))
+
+//@ func ReadKeyFromFile
+//@   props C09 C11
+//@   allocs Arr:Int
+//@   sets havePersisted := havePersisted || result1 == nil
+//@   sets persistedKey := ite(result1 == nil, b64dec(bstr(fsData[filePath])), persistedKey)
+//@   ensures no-write {C11}: fsWrites == old(fsWrites) && fsKind == old(fsKind) && fsData == old(fsData) && effects == old(effects)
+//@   ensures missing {C11}: implies(fsKind[filePath] != 1, result1 != nil)
+//@   ensures not-base64 {C11}: implies(!b64ok(bstr(fsData[filePath])), result1 != nil)
+//@   ensures wrong-length {C11}: implies(result1 == nil, len(result0) == 64)
+//@   ensures wrong-length2 {C11}: implies(blen(b64dec(bstr(fsData[filePath]))) != 64, result1 != nil)
+//@   ensures value {C09,C11}: implies(result1 == nil, mkbytes(elems(result0), off(result0), len(result0)) == b64dec(bstr(fsData[filePath])))
+//@   ensures nil-on-error: implies(result1 != nil, result0 == nil)
+
+//@ func WriteKeyToFile
+//@   props C11
+//@   allocs Arr:Int
+//@   assigns effects, fsWrites, fsKind, fsData, fsPerm
+//@   sets havePersisted := havePersisted || result == nil
+//@   sets persistedKey := ite(result == nil, mkbytes(elems(key), off(key), len(key)), persistedKey)
+//@   ensures length {C11}: implies(len(key) != 64, result != nil && fsWrites == old(fsWrites) && fsKind == old(fsKind) && fsData == old(fsData))
+//@   ensures stored {C11}: implies(result == nil, fsKind[filePath] == 1 && fsData[filePath] == sbytes(b64enc(mkbytes(elems(key), off(key), len(key)))))
+//@   ensures mode {C11}: implies(result == nil && old(fsKind)[filePath] == 0, fsPerm[filePath] == 384)
+//@   ensures only-this-path {C11}: implies(result == nil, fsWrites == store(old(fsWrites), filePath, old(fsWrites)[filePath] + 1))
+
+//@ func GenerateKey
+//@   props C11
+//@   ensures length {C11}: implies(result1 == nil, len(result0) == 64)
+//@   ensures nil-on-error: implies(result1 != nil, result0 == nil)
+
+// ---------------------------------------------------------------------------------------------
+// anonymizer.go
+// ---------------------------------------------------------------------------------------------
+
+//@ func redactString
+//@   props C09 C10
+//@   allocs Arr:Int
+//@   ensures fail-closed {C10}: implies(shouldEncrypt && encryptionKey != nil, result == nonEncryptedValue || result == b64enc(daeadEnc(mkbytes(elems(encryptionKey), off(encryptionKey), len(encryptionKey)), sbytes(s), noBytes)))
+//@   ensures ciphertext {C09,C10}: implies(shouldEncrypt && encryptionKey != nil && len(encryptionKey) == 64, result == nonEncryptedValue || result == b64enc(daeadEnc(mkbytes(elems(encryptionKey), off(encryptionKey), len(encryptionKey)), sbytes(s), noBytes)))
+//@   ensures placeholder {C10}: implies(!(shouldEncrypt && encryptionKey != nil), result == nonEncryptedValue)
